@@ -120,6 +120,9 @@ type MXPlan struct {
 	Data     []Outcome            // reply to DATA
 	Final    []Outcome            // reply after the final dot (SMTP)
 	FinalPer map[string][]Outcome // LMTP per-recipient final replies
+	// DropMidData (per DATA command): after 354 the server reads one line of the
+	// message and then drops the connection (a peer dying mid-transfer).
+	DropMidData []bool
 	// DropAfterFinal: close the connection after the payload was received but
 	// before the reply is sent (the "lost reply" case), for the n-th message.
 	DropAfterFinal []bool
@@ -375,6 +378,14 @@ func (m *ScriptedMX) handle(raw net.Conn, id int) {
 				continue
 			}
 			if !send("354 go ahead") {
+				return
+			}
+			if nd := m.nData - 1; nd >= 0 && nd < len(m.Plan.DropMidData) && m.Plan.DropMidData[nd] {
+				br.ReadString('\n')
+				if s := simrt.Cur(); s != nil {
+					s.Stat("fault_mx_drop_mid_data")
+				}
+				m.logf("c%d dropping the connection in the middle of the message data", id)
 				return
 			}
 			var data []byte
